@@ -56,9 +56,15 @@ def decode_instruction(instr):
         # Advanced SIMD element or structure load/store instructions
         # will not be implemented
         raise NotImplementedError()
+    elif substring(instr, 28, 27) == 0b11 and substring(instr, 26, 24) == 0b010 and substring(instr, 15, 12) != 0b1111:
+        # Data-processing (register): bits[15:12] of the second halfword other than 0b1111 are UNDEFINED
+        raise UndefinedInstructionException()
     elif substring(instr, 28, 27) == 0b11 and substring(instr, 26, 24) == 0b010:
         # Data-processing (register)
         return thumb_data_processing_register.decode_instruction(instr)
+    elif substring(instr, 28, 27) == 0b11 and substring(instr, 26, 23) == 0b0110 and substring(instr, 7, 6) != 0b00:
+        # Multiply, multiply accumulate, and absolute difference: bits[7:6] other than 0b00 are UNDEFINED
+        raise UndefinedInstructionException()
     elif substring(instr, 28, 27) == 0b11 and substring(instr, 26, 23) == 0b0110:
         # Multiply, multiply accumulate, and absolute difference
         return thumb_multiply_multiply_accumulate_and_absolute_difference.decode_instruction(instr)
